@@ -28,7 +28,7 @@ ASSUMPTIONS = ["extents are positive (a 0 extent breaks associativity: Example C
 
 
 def drivers(tier):
-    # "c09k": GENERATED translation units (C09's machinery) calling index::broadcast_shape once per container kind and per MIXED
+    # "c09k": GENERATED translation units (C09's machinery) calling index::broadcast_shape and index::shape_broadcast_to once per container kind and per MIXED
     # pair of kinds — compile-time constants, clipped integers, std::array, static_vector (loose and tight), utl::vector, std::tuple,
     # utl::tuple, raw arrays, constexpr evaluation — which a run-time dispatching driver cannot express
     out = {"c06": [("c06.cpp", "ndebug", ()), ("c06.cpp", "asan", ("-DVD_LIGHT",))]}
@@ -90,7 +90,7 @@ def gen_cases(rng, tier):
         add("nary", "bshape3 S:%s %s %s %s" % (k, L(tr[0]), L(tr[1]), L(tr[2])))
         add("nary", "bshape4 %s %s %s %s" % (L(tr[0]), L(tr[1]), L(tr[2]), L(tr[3])))
     if not SKIP_GENERATED:
-        for line in c09.gen_for(["bshape"], 48 if tier == "quick" else 200, rng, tier):
+        for line in c09.gen_for(["bshape", "bto"], 36 if tier == "quick" else 150, rng, tier):
             out.append(("kinds-generated", line, "c09k"))
     return out
 
